@@ -514,17 +514,17 @@ inst!(pur_two_fwd_n2, [props=C16 xprops=C14 tier=quick cfg=x86std t=1500 role=tw
 #[cfg(not(vcfg_x86none))]
 inst!(pur_two_rev_n2, [props=C16 xprops=C14 tier=quick cfg=x86std t=1500 role=two-searches uw=@RK;@TWNEW;@TWOFF;with_ranker:6;oracle:6;@PP;clone:6;from:6], 3, purity::two_searches::<2, 6, 8>(1, true));
 #[cfg(not(vcfg_x86none))]
-inst!(pur_copies_fwd_n2, [props=C16 xprops=C14 tier=quick cfg=x86std t=1500 role=finder-copies uw=@RK;@TWNEW;@TWOFF;with_ranker:6;oracle:6;@PP;clone:6;from:6], 3, purity::copies::<2, 7>(1, false));
+inst!(pur_copies_fwd_n2, [props=C16 xprops=C14 tier=quick cfg=x86std t=1500 role=finder-copies uw=@RK;@TWNEW;@TWOFF;with_ranker:6;oracle:6;@PP;clone:6;from:6], 3, purity::copies::<2, 5>(1, false));
 #[cfg(not(vcfg_x86none))]
-inst!(pur_copies_rev_n2, [props=C16 xprops=C14 tier=quick cfg=x86std t=1500 role=finder-copies uw=@RK;@TWNEW;@TWOFF;with_ranker:6;oracle:6;@PP;clone:6;from:6], 3, purity::copies::<2, 7>(1, true));
+inst!(pur_copies_rev_n2, [props=C16 xprops=C14 tier=quick cfg=x86std t=1500 role=finder-copies uw=@RK;@TWNEW;@TWOFF;with_ranker:6;oracle:6;@PP;clone:6;from:6], 3, purity::copies::<2, 5>(1, true));
 #[cfg(not(vcfg_x86none))]
 inst!(pur_iter_copies_fwd_n0, [props=C16 xprops=C14 tier=quick cfg=x86std t=1500 role=iterator-copies uw=@RK;@TWNEW;@TWOFF;with_ranker:6;oracle:6;@PP;clone:6;from:6], 3, purity::iter_copies::<0, 6>(false));
 #[cfg(not(vcfg_x86none))]
 inst!(pur_iter_copies_rev_n0, [props=C16 xprops=C14 tier=quick cfg=x86std t=1500 role=iterator-copies uw=@RK;@TWNEW;@TWOFF;with_ranker:6;oracle:6;@PP;clone:6;from:6], 3, purity::iter_copies::<0, 6>(true));
 #[cfg(not(vcfg_x86none))]
-inst!(pur_iter_copies_fwd_n2, [props=C16 xprops=C14 tier=quick cfg=x86std t=1500 role=iterator-copies uw=@RK;@TWNEW;@TWOFF;with_ranker:6;oracle:6;@PP;clone:6;from:6], 3, purity::iter_copies::<2, 6>(false));
+inst!(pur_iter_copies_fwd_n2, [props=C16 xprops=C14 tier=quick cfg=x86std t=1500 role=iterator-copies uw=@RK;@TWNEW;@TWOFF;with_ranker:6;oracle:6;@PP;clone:6;from:6], 3, purity::iter_copies::<2, 5>(false));
 #[cfg(not(vcfg_x86none))]
-inst!(pur_iter_copies_rev_n2, [props=C16 xprops=C14 tier=quick cfg=x86std t=1500 role=iterator-copies uw=@RK;@TWNEW;@TWOFF;with_ranker:6;oracle:6;@PP;clone:6;from:6], 3, purity::iter_copies::<2, 6>(true));
+inst!(pur_iter_copies_rev_n2, [props=C16 xprops=C14 tier=quick cfg=x86std t=1500 role=iterator-copies uw=@RK;@TWNEW;@TWOFF;with_ranker:6;oracle:6;@PP;clone:6;from:6], 3, purity::iter_copies::<2, 5>(true));
 
 // ---------------------------------------------------------------------------
 // C14: exactness of the documented packed-pair panic
